@@ -262,3 +262,38 @@ def sanitizer_summary(err):
 
 def diff_pairs(lines, m, i):
     return [(k, lines[k], m[k], i[k]) for k in range(len(lines)) if m[k] != i[k]]
+
+def run_lines_resilient(harness, lines, harness_args=(), timeout=3000, env=None, max_restarts=200):
+    """Run a one-line-in/one-line-out harness; when it dies (crash, sanitizer abort, timeout) record
+    `CRASH <summary>` for the case it died on and restart with the remaining cases."""
+    out, crashes, pos = [], [], 0
+    restarts = 0
+    while pos < len(lines):
+        data = ("\n".join(lines[pos:]) + "\n").encode()
+        try:
+            p = run_harness(harness, harness_args, input=data, timeout=timeout, env=env)
+            got = p.stdout.decode(errors="replace").split("\n")
+            rc, err = p.returncode, p.stderr.decode(errors="replace")
+        except subprocess.TimeoutExpired as e:
+            got = (e.stdout or b"").decode(errors="replace").split("\n")
+            rc, err = -9, "TIMEOUT"
+        if got and got[-1] == "":
+            got.pop()
+        # a partially written last line cannot be told apart from a full one only if the process died;
+        # keep complete lines only when it died
+        n_ok = min(len(got), len(lines) - pos)
+        if rc != 0 and n_ok < len(lines) - pos:
+            out += got[:n_ok]
+            summ = "TIMEOUT" if err == "TIMEOUT" else sanitizer_summary(err)
+            out.append("CRASH " + summ[:160])
+            crashes.append((pos + n_ok, lines[pos + n_ok], summ))
+            pos += n_ok + 1
+            restarts += 1
+            if restarts > max_restarts:
+                out += ["CRASH (too many restarts)"] * (len(lines) - pos)
+                break
+        else:
+            out += got[:n_ok]
+            out += ["NO-OUTPUT"] * (len(lines) - pos - n_ok)
+            pos = len(lines)
+    return out, crashes
